@@ -70,6 +70,7 @@ type World struct {
 	placedAndGiven [][]byte
 	hs             *hstore
 	genuine        map[string]bool // hashes of header blobs really signed with the proposer's key that the node was given
+	cp             bool            // the node under test (and its chain) uses the custom signature payload provider
 	genuineData    map[string]bool // "<height>:<data hash>" of those headers: the data the proposer committed to
 }
 
@@ -148,18 +149,11 @@ func (w *World) drain() (string, []block.NewHeaderEvent, []block.NewDataEvent) {
 // Oracles computes, with the real crypto, what the model takes as parameters. kaddr is types.KeyAddress of the
 // carried key and is reported only when that key is NOT an Ed25519 key (the model computes the address of Ed25519
 // keys itself from the bytes, so the comparison checks that computation too).
-func Oracles(b []byte) (keyok, hsig, dsig bool, kaddr []byte) {
-	// the oracles are computed with the repository's decoders: if one of them panics on these bytes, the generator
-	// must survive - the runner then gives the same bytes to the real handlers and reports the panic as a finding
-	defer func() {
-		if r := recover(); r != nil {
-			keyok, hsig, dsig, kaddr = false, false, false, nil
-		}
-	}()
+func Oracles(b []byte, customPayload bool) (keyok, hsig, dsig bool, kaddr []byte) {
 	var sh types.SignedHeader
 	if err := sh.UnmarshalBinary(b); err == nil && sh.Signer.PubKey != nil {
 		keyok = true
-		if pl, err := sh.Header.MarshalBinary(); err == nil {
+		if pl, err := HeaderPayload(&sh.Header, customPayload); err == nil {
 			hsig, _ = sh.Signer.PubKey.Verify(pl, sh.Signature)
 		}
 		if sh.Signer.PubKey.Type() != cryptopb.KeyType_Ed25519 {
@@ -177,6 +171,29 @@ func Oracles(b []byte) (keyok, hsig, dsig bool, kaddr []byte) {
 		}
 	}
 	return
+}
+
+// HeaderPayload: what a header signature is verified over - the default payload (Header.MarshalBinary) or the
+// chain's custom signature payload (bm.CustomPayloadProvider) when the node is configured with one
+func HeaderPayload(h *types.Header, customPayload bool) ([]byte, error) {
+	if customPayload {
+		return bm.CustomPayloadProvider(h)
+	}
+	return h.MarshalBinary()
+}
+
+// sigOK: the signature verifies under the proposer's key over the payload THIS node is configured with (a header of a
+// custom-payload chain signed over the default payload is a forgery there, and vice versa)
+func (w *World) sigOK(h *types.Header, sig []byte) bool {
+	if len(sig) == 0 {
+		return false
+	}
+	pl, err := HeaderPayload(h, w.cp)
+	if err != nil {
+		return false
+	}
+	ok, _ := w.env.Pub.Verify(pl, sig)
+	return ok
 }
 
 func dHeight(d *types.Data) uint64 {
@@ -216,7 +233,8 @@ func Run(c *hx.Ctx) {
 			w.genuine = map[string]bool{}
 			w.genuineData = map[string]bool{}
 			w.placedAndGiven = nil
-			env, err := bm.New(bm.Options{InitialHeight: ih, GenesisTime: time.Unix(0, o.I64("gt")), Aggregator: false, DA: w.da, DAStart: st, HeaderStore: w.hs})
+			w.cp = o.Bool("cp")
+			env, err := bm.New(bm.Options{InitialHeight: ih, GenesisTime: time.Unix(0, o.I64("gt")), Aggregator: false, DA: w.da, DAStart: st, HeaderStore: w.hs, CustomPayload: w.cp})
 			if err != nil {
 				c.Emit("reset err")
 				continue
@@ -301,6 +319,11 @@ func Run(c *hx.Ctx) {
 			c.Emit("p2plib %s", verdict)
 			if verdict == "accepted" && hdr != nil {
 				w.checkStored(hdr)
+			}
+			if w.cp && verdict == "rejected:validate" && hdr != nil && hdr.Signer.PubKey != nil && hdr.Signer.PubKey.Equals(w.env.Pub) && w.sigOK(&hdr.Header, hdr.Signature) {
+				// documented caveat (DESIGN 6.1): since /repo 35dfc53 go-header's Validate() checks the DEFAULT payload, so on a
+				// custom-signature-payload chain the P2P library entry rejects the proposer's own headers
+				c.Hit("p2plib-custom-payload-chain-genuine-header-rejected")
 			}
 		case "p2pboot":
 			// the first header of the P2P header store of a node without a trusted hash: what a peer answers to
@@ -758,7 +781,7 @@ func (w *World) note(b []byte) {
 	if err := sh.UnmarshalBinary(b); err != nil || sh.Signer.PubKey == nil || !sh.Signer.PubKey.Equals(w.env.Pub) {
 		return
 	}
-	if bm.SigClass(w.env.Pub, &sh.Header, sh.Signature) == "valid" {
+	if w.sigOK(&sh.Header, sh.Signature) {
 		w.genuine[strings.ToLower(sh.Hash().String())] = true
 		w.genuineData[fmt.Sprintf("%d:%x", sh.Height(), []byte(sh.DataHash))] = true
 	}
@@ -774,7 +797,7 @@ func (w *World) checkAdmission(hs []block.NewHeaderEvent, ds []block.NewDataEven
 			c.Report("C03/header/accepted-with-foreign-proposer-address", fmt.Sprintf("height %d", sh.Height()))
 		} else if sh.Signer.PubKey == nil || !sh.Signer.PubKey.Equals(pub) {
 			c.Report("C03/da-header/accepted-under-proposer-address-with-foreign-key", fmt.Sprintf("height %d", sh.Height()))
-		} else if bm.SigClass(pub, &sh.Header, sh.Signature) != "valid" {
+		} else if !w.sigOK(&sh.Header, sh.Signature) {
 			c.Report("C03/da-header/accepted-without-valid-proposer-signature", fmt.Sprintf("height %d", sh.Height()))
 		}
 	}
